@@ -20,7 +20,7 @@ CLAIMS = {
         text="Static decision of the whole property: linkage of every header definition (clang AST), exactly-one external provider for "
              "every declared symbol (IR of the Makefile's unit list), and exhaustive compile/link witnesses over the finite configuration "
              "space in the property's quantifier (each header alone, each ordered pair, all, twice; 1 and 2 client units; libcstl.a and "
-             "libcstl.so). The compiler front end and the linker are the analysers; nothing is executed.",
+             "libcstl.so; also a client built without NDEBUG against the release library). The compiler front end and the linker are the analysers; nothing is executed.",
         technique="AST linkage rule + symbol-provision rule over IR + exhaustive compile/link witnesses"),
     'C20': dict(
         text="Decides, for every path of every public smart-pointer / array entry point (whole-library inlined IR), that the first guard "
@@ -37,7 +37,7 @@ CLAIMS['C09'] = dict(
          "committed only in the success region of realloc, which is handed the current block; (V3) at() returns only under i < count "
          "and aborts only under count <= i; (V4) resize changes count / runs xtors only after re-checking sz <= cap, aborting "
          "otherwise, and reserve grows only when sz > cap; (V7) the scratch slot used by sort/reverse is element index cap and the "
-         "setter allocates (request+1)*size; (V8) swap exchanges every member of the two vectors, the constructor/destructor description included. Constructor/destructor exactly-once counts and byte preservation beyond realloc's "
+         "setter allocates (request+1)*size; (V8) swap exchanges every member of the two vectors, the constructor/destructor description included; (V9) giving up the storage also sets the capacity to 0; (V10) resize steps the count (constructs / destroys) only in the direction of the request (path-sensitive with a store/load model of the count); (V11) no element pointer read before a reallocation is used after it; (V12) sort/search/find/reverse hand the raw-array routines base, element COUNT and element size. Constructor/destructor exactly-once counts and byte preservation beyond realloc's "
          "contract are NOT decided.",
     technique="no-wrap obligations by dominating-facts entailment over inlined LLVM IR; allocator-result discipline; structural agreement rules")
 CLAIMS['C10'] = dict(
@@ -46,7 +46,7 @@ CLAIMS['C10'] = dict(
          "(T2) every function that resizes the underlying vector asks for n+1 elements and writes the NUL at element n through the "
          "re-read base pointer on every path, and nothing else changes the count; (T3) positional operations touch the buffer only "
          "under the documented bound (pos <= size for insert, pos < size otherwise) and abort on the other edge; (T4) str() never "
-         "returns NULL; (T5) the wide instantiation scales every byte count handed to memcpy/memmove/memset by the character size and uses memset only to fill with 0; (T6) resize's NUL fill of the grown part starts at the old size. Equality with a reference string and agreement of find/compare with the C library are NOT decided.",
+         "returns NULL; (T5) the wide instantiation scales every byte count handed to memcpy/memmove/memset by the character size and uses memset only to fill with 0; (T6) resize's NUL fill of the grown part starts at the old size; (T7) swap exchanges every member; (T8) no character pointer read before a reallocation of the same string's storage is used after it; (T9) compare is not bounded by one operand's length alone. Equality with a reference string and agreement of find/compare with the C library are NOT decided.",
     technique="no-wrap obligations by dominating-facts entailment over inlined LLVM IR; dominance / post-dominance rules; both template instantiations")
 
 CLAIMS['C14'] = dict(
@@ -102,7 +102,7 @@ CLAIMS['C03'] = dict(
 CLAIMS['C12'] = dict(
     text="Decides, on every path of the code as written: (D1) every function documented to return NULL can return it; (D2) swap "
          "re-anchors both lists to their own sentinel in the empty and the non-empty case, reading the links after the bitwise swap; "
-         "(D3) concat splices only distinct lists, adds the size once and re-initialises the source; (D4) foreach binds next for FWD "
+         "(D3) concat splices only distinct lists and only a source known to be non-empty, adds the size once and re-initialises the source; (D4) foreach binds next for FWD "
          "and prev for REV, never touches a node after its visit, and propagates the first non-zero result (path-sensitive); (D5) "
          "size is adjusted exactly once per primitive; (D6) reverse links its two cursors directly only under the adjacency test; (D7) swap exchanges every member; (D8) push_front / push_back / insert pass the anchor matching the direction in which the link primitive links; (D9) a visiting walk ends at the head sentinel, never at an element; (D10) callbacks get the context supplied with them. The link correctness of reverse / sort / merge and equality with a reference "
          "sequence are NOT decided.",
@@ -112,7 +112,7 @@ CLAIMS['C13'] = dict(
          "function that writes a node link also maintains the same list's tail pointer (or re-initialises that list); (N3) swap "
          "re-anchors an empty list's tail to its own head link, reading the count after the swap; (N4) foreach reads the successor "
          "before the visit and propagates the first non-zero result; (N5) count is adjusted exactly once per primitive, concat adds "
-         "once and re-initialises the source; (N6) the tail is only ever set to the head link, another tail, or a node known to exist; (N7) swap exchanges every member; (N8) push_front / push_back / insert_after pass the anchor after which the primitive links; (N9) callbacks get the context supplied with them. That reverse / sort / merge produce the right order is NOT decided.",
+         "once and re-initialises the source; (N6) the tail is only ever set to the head link, another tail, or a node known to exist; (N7) swap exchanges every member; (N8) push_front / push_back / insert_after pass the anchor after which the primitive links; (N9) callbacks get the context supplied with them; (N10) the unlink primitive re-points the tail at the predecessor when it removes the last node; concat re-points the destination tail only for a non-empty source. That reverse / sort / merge produce the right order is NOT decided.",
     technique="documentation-contract rule (AST + IR return values) + field-effect rule + dominating facts + typestate over LLVM IR")
 
 CLAIMS['C01'] = dict(
@@ -122,7 +122,7 @@ CLAIMS['C01'] = dict(
          "foreach binds (left,right) for FWD and (right,left) for REV and returns the walker's result, the adapter forwards "
          "element/order/result unchanged; (W3) size is written only as 0 or size+/-1, exactly once per insert/unlink path; (W4) insert "
          "and find agree on comparison argument order and descent direction; (W5) erase (lookup and unlink routines recognised by effect; path-sensitive) unlinks exactly the node the lookup returned, exactly once and only "
-         "when non-NULL, and returns it, NULL otherwise; (W6) a non-NULL find result is the node that compared equal; (W7) insert links the new node only into a slot just read as NULL; (W8) swap exchanges every member of the tree objects; (W9) comparison / visit calls get the context stored beside the function. That relinking in the two-child "
+         "when non-NULL, and returns it, NULL otherwise; (W6) a non-NULL find result is the node that compared equal; (W7) insert links the new node only into a slot just read as NULL; (W8) swap exchanges every member of the tree objects (one block copy or member by member); (W9) comparison / visit calls get the context stored beside the function; (W4, slot choice) every child slot insert links into or descends through is chosen under the matching sign of a comparison; (W10) red-black erase leaves the node at which its repair stops black on every path and (W11) red-black insert ends by colouring the root black (a red root makes the next insert dereference a missing grandparent: the tree can no longer hold what is inserted). That relinking in the two-child "
          "erase case and in rotations preserves the multiset and the order is NOT decided (heap-shape reasoning).",
     technique="path-sensitive typestate over the recursive walker + sibling agreement + dominating facts over LLVM IR")
 CLAIMS['C15'] = dict(
@@ -130,7 +130,7 @@ CLAIMS['C15'] = dict(
          "written through its node (slist/dlist clear, tree walker after POST/LEAF and after recursing into a child, tree/map/hash "
          "clear adapters; the map node is freed only after the callback, which sees a detached iterator); (K2) every node gets exactly "
          "one hand-off (walker protocol; the tree adapter calls back exactly for POST/LEAF and returns 0 for every order; list loops "
-         "hand off once per iteration); (K3) clear re-establishes the initial state on every path (path-sensitive for the tree; trees incl. rbtree/heap/map through their "
+         "hand off once per iteration); (K3) clear re-establishes the initial state on every path and changes nothing else of the tree object (path-sensitive for the tree; trees incl. rbtree/heap/map through their "
          "wrappers, slist via the initialiser's stores, dlist via a drain loop that exits only under size == 0).",
     technique="path-sensitive typestate (hand-off state, walker protocol) + dominance + init/clear sibling agreement over LLVM IR")
 
@@ -144,8 +144,8 @@ CLAIMS['C08'] = dict(
     technique="path-sensitive typestate over call events + field-effect rule + dominance over LLVM IR")
 CLAIMS['C11'] = dict(
     text="Thin by design: decides only clauses with a type- or shape-level necessary condition: (X1) no size_t count/index is "
-         "narrowed in the raw-array routines; (X2) every algorithm selector reaches a sort of the caller's array and the default "
-         "re-dispatches to an explicit case (terminates); (X3) the sift-down reads computed child elements only under child < count; "
+         "narrowed in the raw-array routines; (X2) for every selector value - each enumerator and values outside the enumeration - exactly one sort of the caller's array is reached, "
+         "a re-dispatch landing on a directly handled selector (path-sensitive, independent of switch / if-chain form); (X3) the sift-down reads computed child elements only under child < count; "
          "(X4) linear find returns the ascending loop's index under cmp == 0, else -1; (X5) the quicksort pivot index is proven below count per alternative, or refuted by folding the index expression over rand()'s range (no verdict otherwise); (X6) every comparison call gets the context supplied with the function. 'Sorted permutation', 'search finds iff "
          "present' and partition bounds are NOT decided.",
     technique="taint + truncation rule, switch coverage, dominating facts over LLVM IR; enumerators from the AST")
